@@ -85,7 +85,9 @@ def value_for(g, cls, p, tenum):
         return PObj(Tags, {'tags': PList(['t1', 't2'])})
     if p in ('mf_data', 'user_data', 'layout_data'):
         c = {'mf_data': MeasurementData, 'user_data': UserData, 'layout_data': LayoutData}[p]
-        return PObj(c, {'_data': '{"k": [1, 2, {"z": null}]}'})
+        # a nested document; a top-level STRING whose content looks like JSON (decoding it once more changes the value); a
+        # document with non-default spacing (re-encoding it changes the text)
+        return PObj(c, {'_data': g.pick(['{"k": [1, 2, {"z": null}]}', '"42"', '{"a":1}'], 'stored JSON text')})
     if p == 'node_map':
         return (g.str('v_nm_graph'), g.str('v_nm_node'))
     if p == 'stitch_node':
